@@ -266,6 +266,10 @@ class Model:
             failed_known = False
             if ctx['stack']:
                 ctx['extra_new'].setdefault(ctx['stack'][-1], set()).update(tops)
+            if ctx['obs'] is not None:
+                # the order in which redo brings these up to date is unspecified; it matters only when one of
+                # them fails (the rest is then not started): take the ones that were observed to run first
+                tops = sorted(tops, key=lambda d: 0 if d in ctx['obs'] else 1)
             for d in tops:
                 if failed_known and not ctx['keep']:
                     wr = self.would_run(d, ctx)
